@@ -4,10 +4,22 @@
 // caller holds it while later lines are scanned" has to survive that hop:
 // a consumer that holds every batch until the input is exhausted must find
 // in them exactly the lines of the stream, in order, numbered from 1.
+//
+// The same hop has to carry the statement's last sentence: "a non-EOF read
+// error is reported once, ends the stream, and all bytes read before it are
+// still delivered as lines". The batcher-fault sub-property drives the real
+// batchers from sources that fail: OpenReaderToChan (the time-flush loop) from
+// the fault-planned chunk reader of the scan sub-property (error at byte k as
+// (0, err) or (n>0, err), after stalls), OpenFilesToChan (the plain loop)
+// through its only reader seam, gunzip=true on a damaged .gz file (the gzip
+// reader hands the decoded bytes over and then - or together with them -
+// a non-EOF error).
 package c04
 
 import (
 	"bytes"
+	"compress/gzip"
+	"errors"
 	"fmt"
 	"io"
 	"os"
@@ -19,18 +31,97 @@ import (
 	"pgregory.net/rapid"
 	"rare/pkg/extractor"
 	"rare/pkg/extractor/batchers"
+	"rare/pkg/logger"
 	"verifharness/model"
 	"verifharness/pbt"
 )
 
 type BatchCase struct {
 	Content     pbt.S
-	Via         string // file | reader
-	Chunks      []int  // reader path: bytes per Read (cycled)
+	Via         string // file | reader | faulty-reader | gzip
+	Chunks      []int  // reader paths: bytes per Read (cycled); faulty-reader: 0 = stall (0, nil)
 	Batch       int
 	BatchBuffer int
-	SlowEvery   int      // consumer pauses 200us before every SlowEvery-th receive, 40 times at most (0 = never)
-	Obs         *pbt.Obs `json:"-"`
+	SlowEvery   int // consumer pauses 200us before every SlowEvery-th receive, 40 times at most (0 = never)
+
+	// faulty-reader (the chunk reader of the scan sub-property behind OpenReaderToChan)
+	Fault       bool `json:",omitempty"` // a non-EOF error is raised once FaultAt bytes were handed over
+	FaultAt     int  `json:",omitempty"`
+	ErrWithData bool `json:",omitempty"` // the read that reaches the end/fault returns (n>0, err)
+	LongStall   int  `json:",omitempty"` // run of (0, nil) reads before the StallAt-th read that hands over data
+	StallAt     int  `json:",omitempty"`
+
+	// gzip (Content gzipped into a file, damaged, read by OpenFilesToChan with gunzip=true)
+	GzLevel    int   `json:",omitempty"` // compress/gzip level (0 = stored blocks, 1, -1)
+	GzCutBack  int   `json:",omitempty"` // bytes removed from the end of the .gz file (never into the 10-byte header)
+	GzFlipBack int   `json:",omitempty"` // xor GzXor into the byte this far from the end (before cutting; never in the header)
+	GzXor      int   `json:",omitempty"`
+	GzTail     pbt.S `json:",omitempty"` // garbage appended after the gzip member
+
+	Obs *pbt.Obs `json:"-"`
+}
+
+// closerOf gives the scan sub-property's chunk reader the Close that OpenReaderToChan wants.
+type closerOf struct{ *chunkReader }
+
+func (closerOf) Close() error { return nil }
+
+const gzHeaderLen = 10 // gzip.Writer without name/comment/extra
+
+var gzWriters = map[int]*gzip.Writer{}
+
+// gzBytes is Content as one gzip member (deterministic: no name, no mtime).
+func gzBytes(content []byte, level int) []byte {
+	var out bytes.Buffer
+	w := gzWriters[level]
+	if w == nil {
+		w, _ = gzip.NewWriterLevel(&out, level)
+		gzWriters[level] = w
+	} else {
+		w.Reset(&out)
+	}
+	w.Write(content)
+	w.Close()
+	return out.Bytes()
+}
+
+// gzFile is the .gz file of the case: member, one byte flipped, end cut off, garbage appended.
+func gzFile(c BatchCase) []byte {
+	z := gzBytes([]byte(c.Content), c.GzLevel)
+	if p := len(z) - c.GzFlipBack; c.GzFlipBack > 0 && p >= gzHeaderLen {
+		z[p] ^= byte(c.GzXor)
+	}
+	if cut := c.GzCutBack; cut > 0 {
+		if cut > len(z)-gzHeaderLen {
+			cut = len(z) - gzHeaderLen
+		}
+		z = z[:len(z)-cut]
+	}
+	return append(z, []byte(c.GzTail)...)
+}
+
+var errGzRef = errors.New("reference gunzip: no gzip header")
+
+// gunzipRef is what a gzip reader hands over for the file: the decoded bytes
+// up to its first error, and that error (io.EOF for an intact file). These
+// are "the bytes read before the error" of the statement on the gunzip path.
+func gunzipRef(raw []byte) ([]byte, error) {
+	zr, err := gzip.NewReader(bytes.NewReader(raw))
+	if err != nil {
+		return nil, errGzRef
+	}
+	var data []byte
+	buf := make([]byte, 32<<10)
+	for {
+		n, e := zr.Read(buf)
+		data = append(data, buf[:n]...)
+		if e != nil {
+			return data, e
+		}
+		if len(data) > 32<<20 {
+			return nil, errGzRef
+		}
+	}
 }
 
 type sliceReader struct {
@@ -64,27 +155,54 @@ var batchSeq int
 
 func checkBatch(c BatchCase) error {
 	content := []byte(c.Content)
-	want := model.Lines(content)
+	handed := content // the bytes the source hands over before it ends or fails
+	wantErrs := 0
+	var srcErr error
+	var rd *chunkReader
 	var b *batchers.Batcher
 	switch c.Via {
-	case "file":
+	case "file", "gzip":
+		onDisk, ext := content, "log"
+		if c.Via == "gzip" {
+			onDisk, ext = gzFile(c), "gz"
+			handed, srcErr = gunzipRef(onDisk)
+			if srcErr == errGzRef {
+				pbt.Exclude("gzip: damaged file has no header / decodes to >32MiB")
+				return nil
+			}
+			if srcErr != io.EOF {
+				wantErrs = 1
+			}
+		}
 		dir := os.Getenv("VERIF_SCRATCH")
 		if dir == "" {
 			dir = os.TempDir()
 		}
 		batchSeq++
-		fn := filepath.Join(dir, fmt.Sprintf("c04-batch-%d-%d.log", os.Getpid(), batchSeq))
-		if err := os.WriteFile(fn, content, 0o644); err != nil {
+		fn := filepath.Join(dir, fmt.Sprintf("c04-batch-%d-%d.%s", os.Getpid(), batchSeq, ext))
+		if err := os.WriteFile(fn, onDisk, 0o644); err != nil {
 			return fmt.Errorf("harness: %v", err)
 		}
 		defer os.Remove(fn)
 		names := make(chan string, 1)
 		names <- fn
 		close(names)
-		b = batchers.OpenFilesToChan(names, false, 1, c.Batch, c.BatchBuffer)
+		b = batchers.OpenFilesToChan(names, c.Via == "gzip", 1, c.Batch, c.BatchBuffer)
+	case "faulty-reader":
+		limit := len(content)
+		srcErr = io.EOF
+		if c.Fault && c.FaultAt >= 0 && c.FaultAt <= len(content) {
+			limit = c.FaultAt
+			srcErr = errInjected
+			wantErrs = 1
+		}
+		handed = content[:limit]
+		rd = &chunkReader{data: content, limit: limit, finalErr: srcErr, chunks: c.Chunks, withData: c.ErrWithData, longStall: c.LongStall, stallAt: c.StallAt}
+		b = batchers.OpenReaderToChan("<r>", closerOf{rd}, c.Batch, c.BatchBuffer)
 	default:
 		b = batchers.OpenReaderToChan("<r>", &sliceReader{data: append([]byte(nil), content...), chunks: c.Chunks}, c.Batch, c.BatchBuffer)
 	}
+	want := model.Lines(handed)
 	// hold every batch as received (no copy) until the channel is closed
 	var held []extractor.InputBatch
 	k := 0
@@ -105,8 +223,14 @@ func checkBatch(c BatchCase) error {
 		churn = append(churn, x)
 	}
 	_ = churn
-	if n := b.ReadErrors(); n != 0 {
-		return fmt.Errorf("%d read errors reported for a healthy input", n)
+	if n := b.ReadErrors(); n != wantErrs {
+		if wantErrs == 0 {
+			return fmt.Errorf("%d read errors reported for a healthy input (via=%s)", n, c.Via)
+		}
+		return fmt.Errorf("%d read errors counted, the source failed exactly once (%v after handing over %d bytes, via=%s)", n, srcErr, len(handed), c.Via)
+	}
+	if rd != nil && rd.after > 0 {
+		return fmt.Errorf("the reader was read %d more time(s) after it had reported %v", rd.after, srcErr)
 	}
 	sort.SliceStable(held, func(i, j int) bool { return held[i].BatchStart < held[j].BatchStart })
 	next := uint64(1)
@@ -134,16 +258,59 @@ func checkBatch(c BatchCase) error {
 		next += uint64(len(ib.Batch))
 	}
 	if idx != len(want) {
+		if wantErrs > 0 {
+			return fmt.Errorf("batches hold %d lines; the %d bytes the source handed over before it failed (%v) are %d lines, line %d is %q (batch=%d buffer=%d via=%s)",
+				idx, len(handed), srcErr, len(want), idx+1, pbt.Trunc(string(want[idx]), 80), c.Batch, c.BatchBuffer, c.Via)
+		}
 		return fmt.Errorf("batches hold %d lines, the stream has %d", idx, len(want))
 	}
-	c.Obs.Add("batches", len(held))
-	c.Obs.Add("lines", len(want))
+	o := c.Obs
+	o.Add("batches", len(held))
+	o.Add("lines", len(want))
+	o.Label(wantErrs > 0, "fault")
+	o.Label(len(handed) > 0 && handed[len(handed)-1] != '\n', "unterminated-tail")
+	if rd != nil {
+		o.Label(rd.stalls > 0, "stalled-read")
+		o.Label(rd.stalled >= 100, "stall-run>=100")
+		o.Label(wantErrs > 0 && len(handed) == 0, "fault-at-byte-0")
+		o.Label(wantErrs == 0 && c.ErrWithData && len(handed) > 0, "eof-with-n>0")
+		if wantErrs > 0 && c.ErrWithData && len(rd.bounds) > 0 {
+			// lines the scanner had not handed out yet when the failing read came back with data
+			from := 0
+			if k := len(rd.bounds); k >= 2 {
+				from = rd.bounds[k-2]
+			}
+			pending := bytes.Count(handed[from:], []byte{'\n'})
+			if handed[len(handed)-1] != '\n' {
+				pending++
+			}
+			o.Label(true, "fault-with-n>0")
+			o.Label(pending >= 2, "fault-with-n>0:>=2-lines-pending")
+			o.Label(pending >= c.Batch+2, "fault-with-n>0:pending>batch+1")
+		}
+		o.Label(wantErrs > 0 && !(c.ErrWithData && len(rd.bounds) > 0), "fault-as-(0,err)")
+	}
+	if c.Via == "gzip" {
+		switch {
+		case srcErr == io.EOF:
+			o.Label(true, "gzerr:none")
+		case errors.Is(srcErr, gzip.ErrChecksum):
+			o.Label(true, "gzerr:checksum")
+		case errors.Is(srcErr, io.ErrUnexpectedEOF):
+			o.Label(true, "gzerr:unexpected-eof")
+		case errors.Is(srcErr, gzip.ErrHeader):
+			o.Label(true, "gzerr:header-of-next-member")
+		default:
+			o.Label(true, "gzerr:corrupt-input")
+		}
+		o.Label(wantErrs > 0 && len(want) >= 2, "gzip-fault:>=2-lines-decoded")
+	}
 	return nil
 }
 
-func genBatch(t *rapid.T) BatchCase {
-	c := BatchCase{Obs: pbt.NewObs()}
-	n := rapid.IntRange(0, 400).Draw(t, "lines")
+// genBatchLines draws 0..max text lines (empty, CR-bearing, CRLF mixes, with/without final newline).
+func genBatchLines(t *rapid.T, max int) pbt.S {
+	n := rapid.IntRange(0, max).Draw(t, "lines")
 	var sb bytes.Buffer
 	crlf := rapid.IntRange(0, 3).Draw(t, "crlf") == 0
 	for i := 0; i < n; i++ {
@@ -162,7 +329,12 @@ func genBatch(t *rapid.T) BatchCase {
 			sb.WriteByte('\n')
 		}
 	}
-	c.Content = pbt.S(sb.String())
+	return pbt.S(sb.String())
+}
+
+func genBatch(t *rapid.T) BatchCase {
+	c := BatchCase{Obs: pbt.NewObs()}
+	c.Content = genBatchLines(t, 400)
 	c.Via = rapid.SampledFrom([]string{"file", "reader", "reader"}).Draw(t, "via")
 	if c.Via == "reader" {
 		for i := 0; i < rapid.IntRange(0, 4).Draw(t, "nchunks"); i++ {
@@ -192,3 +364,90 @@ var batchSpec = pbt.Spec[BatchCase]{
 }
 
 func TestBatcher(t *testing.T) { pbt.Run(t, batchSpec) }
+
+// genBatchFault: a source that fails (or stalls) under the real batchers.
+func genBatchFault(t *rapid.T) BatchCase {
+	c := BatchCase{Obs: pbt.NewObs()}
+	switch rapid.IntRange(0, 3).Draw(t, "contentClass") {
+	case 0:
+		c.Content = pbt.S(genContent(t)) // the scan sub-property's alphabet {\n,\r,a,b,NUL,0xFF}
+	case 1:
+		c.Content = genBatchLines(t, 12)
+	default:
+		c.Content = genBatchLines(t, 400)
+	}
+	c.Batch = rapid.SampledFrom([]int{1, 1, 2, 3, 7, 64}).Draw(t, "batch")
+	c.BatchBuffer = rapid.IntRange(1, 8).Draw(t, "buffer")
+	c.SlowEvery = rapid.SampledFrom([]int{0, 0, 0, 1, 3}).Draw(t, "slow")
+	c.Via = rapid.SampledFrom([]string{"faulty-reader", "faulty-reader", "gzip"}).Draw(t, "via")
+	if c.Via == "faulty-reader" {
+		for i := 0; i < rapid.IntRange(0, 4).Draw(t, "nchunks"); i++ {
+			c.Chunks = append(c.Chunks, rapid.SampledFrom([]int{0, 1, 2, 3, 7, 20, 64, 1000}).Draw(t, "chunk"))
+		}
+		if rapid.IntRange(0, 5).Draw(t, "fault") != 0 {
+			c.Fault = true
+			c.FaultAt = rapid.IntRange(0, len(c.Content)).Draw(t, "faultAt")
+		}
+		c.ErrWithData = rapid.Bool().Draw(t, "errWithData")
+		if rapid.IntRange(0, 11).Draw(t, "longStall") == 0 {
+			c.LongStall = rapid.SampledFrom([]int{99, 100, 101, 150, 1000}).Draw(t, "stallRun")
+			c.StallAt = rapid.IntRange(0, 3).Draw(t, "stallAt")
+		}
+		return c
+	}
+	c.GzLevel = rapid.SampledFrom([]int{gzip.NoCompression, gzip.BestSpeed, gzip.DefaultCompression}).Draw(t, "gzLevel")
+	body := len(gzBytes([]byte(c.Content), c.GzLevel)) - gzHeaderLen // deflate stream + 8 trailer bytes
+	switch rapid.IntRange(0, 9).Draw(t, "damage") {
+	case 0: // intact
+	case 1, 2: // truncated inside the trailer (CRC32, ISIZE)
+		c.GzCutBack = rapid.IntRange(1, 8).Draw(t, "cutBack")
+	case 3, 4: // truncated anywhere after the header
+		c.GzCutBack = rapid.IntRange(1, body).Draw(t, "cutBack")
+	case 5, 6: // wrong CRC32 / ISIZE
+		c.GzFlipBack = rapid.IntRange(1, 8).Draw(t, "flipBack")
+		c.GzXor = rapid.IntRange(1, 255).Draw(t, "xor")
+	case 7, 8: // a damaged byte in the deflate stream
+		c.GzFlipBack = rapid.IntRange(9, body).Draw(t, "flipBack")
+		c.GzXor = rapid.IntRange(1, 255).Draw(t, "xor")
+	default: // garbage after the member
+		c.GzTail = pbt.S(rapid.SliceOfN(rapid.Byte(), 1, 12).Draw(t, "gzTail"))
+	}
+	return c
+}
+
+var batchFaultSpec = pbt.Spec[BatchCase]{
+	Property: "C04", Name: "batcher-fault",
+	Rule:   "the batcher sub-property's oracle under failing sources. faulty-reader: content (scan alphabet, or 0-12 / 0-400 generated lines) handed to batchers.OpenReaderToChan by the scan sub-property's chunk reader: chunk plans over {0=stall,1,2,3,7,20,64,1000} or whole-buffer reads, a non-EOF error once k bytes were handed over (k in 0..len; 1 case in 6 ends in a clean EOF) delivered as (0, err) or together with the last bytes as (n>0, err), optional runs of 99-1000 stalls. gzip: the content gzipped (stored/fast/default) into a file that is intact, truncated (in the trailer or anywhere behind the header), has one byte flipped (trailer or deflate stream) or garbage appended, read by OpenFilesToChan(gunzip=true); reference = the bytes compress/gzip hands over for that file before its first error. Oracle: the held batches are exactly the reference lines of the bytes handed over before the error, each once, in order, numbered consecutively from 1, no batch above the batch size; ReadErrors() is 1 for a failed source and 0 for a clean end; the channel is closed; a failed chunk reader is not read again. Non-trivial: the source failed after handing over >=2 lines",
+	Budget: pbt.Budget{Quick: 12000, Thorough: 500000},
+	Gen:    genBatchFault, Check: checkBatch,
+	Classify: func(c BatchCase) (bool, []string) {
+		var l pbt.Labels
+		l.Add(true, "via:"+c.Via)
+		l.Add(c.Batch == 1, "batch=1")
+		l.Add(c.Obs.Get("batches") > c.BatchBuffer+3, "batches>buffer+3")
+		if c.Via == "gzip" {
+			switch {
+			case len(c.GzTail) > 0:
+				l.Add(true, "gz:garbage-tail")
+			case c.GzCutBack > 0 && c.GzCutBack <= 8:
+				l.Add(true, "gz:cut-in-trailer")
+			case c.GzCutBack > 8:
+				l.Add(true, "gz:cut-in-deflate-stream")
+			case c.GzFlipBack > 8:
+				l.Add(true, "gz:flip-in-deflate-stream")
+			case c.GzFlipBack > 0:
+				l.Add(true, "gz:flip-in-trailer")
+			default:
+				l.Add(true, "gz:intact")
+			}
+		}
+		l = append(l, c.Obs.All()...)
+		return c.Obs.Has("fault") && c.Obs.Get("lines") >= 2, l
+	},
+}
+
+func TestBatcherFault(t *testing.T) {
+	// every failing source makes rare log "Error reading ..." on stderr; keep that in rare's log buffer
+	logger.DeferLogs()
+	pbt.Run(t, batchFaultSpec)
+}
